@@ -11,7 +11,7 @@ variable {κ : Type}
 /-- outcome of running the same action / action list / arm body in both runs. `must`: the signal stops
 the caller (written with `?`), so nothing is needed about the machines when there is one. -/
 def ActSim (δ : Nat) (K : Nat → κ → κ → Prop) (ab' : Ab) (must : Bool) (rs rw : M κ × Option Signal) : Prop :=
-  SPanic rs.2 ∨ (SigRel δ 0 rs.2 rw.2 ∧
+  (must = true ∧ SPanic rs.2) ∨ (SigRel δ 0 rs.2 rw.2 ∧
     ((rs.2 = none ∨ must = false) → MRel δ 0 0 ab' .none rs.1 rw.1 ∧ K 0 rs.1.x.sink rw.1.x.sink))
 
 def sigOf : Except Err Unit → Option Signal
@@ -80,8 +80,8 @@ theorem lexEmitNonTag_sim (hops : OpsSim env.ops inpS inpW δ K) {ab ab' : Ab} {
     (htag : (ls.curTag = ls0.curTag ∧ lw.curTag = lw0.curTag) ∨ (ls.curTag = none ∧ lw.curTag = none))
     (hattr : ls.curAttr = ls0.curAttr ∧ lw.curAttr = lw0.curAttr)
     (hnt : (ls.curNonTag = ls0.curNonTag ∧ lw.curNonTag = lw0.curNonTag) ∨ (ls.curNonTag = none ∧ lw.curNonTag = none))
-    (must : Bool) :
-    ActSim δ K ab' must (lexEmitNonTag env inpS cs ls xs o es)
+    :
+    ActSim δ K ab' true (lexEmitNonTag env inpS cs ls xs o es)
       (lexEmitNonTag env inpW cw lw xw (o.map (shNonTag δ)) (es + δ)) := by
   rw [lexEmitNonTag_eq, lexEmitNonTag_eq]
   have hraw : (⟨lw.lexemeStart, es + δ⟩ : Range) = shR δ ⟨ls.lexemeStart, es⟩ := by
@@ -92,7 +92,7 @@ theorem lexEmitNonTag_sim (hops : OpsSim env.ops inpS inpW δ K) {ab ab' : Ab} {
   rw [← hpc] at hop
   rcases hop with hpan | ⟨hres, hK'⟩
   · left
-    exact spanic_of_epanic hpan
+    exact ⟨rfl, spanic_of_epanic hpan⟩
   · right
     rw [hres]
     refine ⟨sigRel_of_res δ _, fun _ => ⟨⟨hc, ?_, hsim, hpc⟩, hK'⟩⟩
@@ -108,8 +108,8 @@ theorem lexEmitText_sim (hops : OpsSim env.ops inpS inpW δ K) {d : Nat} {ab ab'
     {ls lw : LexRegs} {xs xw : Ctx κ}
     (hc : CRel δ 0 cs cw) (hl : LexRel δ d ab cs.nextPos ls lw) (hP : ab.P = true)
     (hsim : xw.sim = xs.sim) (hpc : xs.prevConsumed = xw.prevConsumed + δ) (hK : K d xs.sink xw.sink)
-    (hn : ab'.noLex) (must : Bool) :
-    ActSim δ K ab' must (lexEmitText env inpS cs ls xs) (lexEmitText env inpW cw lw xw) := by
+    (hn : ab'.noLex) :
+    ActSim δ K ab' true (lexEmitText env inpS cs ls xs) (lexEmitText env inpW cw lw xw) := by
   have hp := hl.p hP
   have hle := hl.ls_eq
   have hnp := hc.nextPos
@@ -121,7 +121,7 @@ theorem lexEmitText_sim (hops : OpsSim env.ops inpS inpW δ K) {d : Nat} {ab ab'
     by_cases hgt : cs.pos > ls.lexemeStart
     · rw [if_pos hgt, if_pos (by omega), hpos, hc.lastTextType]
       exact lexEmitNonTag_sim hops (some (.text cs.lastTextType)) cs.pos hc hl hsim hpc hK hn (by omega)
-        (fun _ => by omega) rfl rfl hl.fd (Or.inl ⟨rfl, rfl⟩) ⟨rfl, rfl⟩ (Or.inl ⟨rfl, rfl⟩) must
+        (fun _ => by omega) rfl rfl hl.fd (Or.inl ⟨rfl, rfl⟩) ⟨rfl, rfl⟩ (Or.inl ⟨rfl, rfl⟩)
     · rw [if_neg hgt, if_neg (by omega)]
       refine ActSim.ret ⟨hc, ?_, hsim, hpc⟩ hK
       exact hl.emitted hn ls.lexemeStart (by omega) (fun _ => by omega) rfl (by omega) hl.fd
@@ -138,7 +138,7 @@ theorem lexEmitText_sim (hops : OpsSim env.ops inpS inpW δ K) {d : Nat} {ab ab'
     · rw [if_pos hgt, lexEmitNonTag_eq env inpS]
       rw [if_pos (show lw.lexemeStart + d < cw.pos by omega)] at hop
       rcases hop with hpan | ⟨hres, hK'⟩
-      · exact Or.inl (spanic_of_epanic hpan)
+      · exact Or.inl ⟨rfl, spanic_of_epanic hpan⟩
       · right
         rw [hres]
         refine ⟨sigRel_of_res δ _, fun _ => ⟨⟨hc, ?_, hsim, hpc⟩, hK'⟩⟩
@@ -169,8 +169,9 @@ theorem andThen_sim {ab1 ab2 : Ab} {rs rw : M κ × Option Signal} {gs gw : M κ
     (hg : ∀ ms mw, MRel δ 0 0 ab1 .none ms mw → K 0 ms.x.sink mw.x.sink → ActSim δ K ab2 true (gs ms) (gw mw)) :
     ActSim δ K ab2 true (andThen rs gs) (andThen rw gw) := by
   unfold andThen
-  rcases h with hp | ⟨hs, hm⟩
+  rcases h with ⟨_, hp⟩ | ⟨hs, hm⟩
   · left
+    refine ⟨rfl, ?_⟩
     revert hp
     cases rs.2 with
     | none => intro hp; exact hp.elim
@@ -211,7 +212,7 @@ theorem lexEmitEof_sim (hops : OpsSim env.ops inpS inpW δ K) {ab : Ab} {ms mw :
       simp only
       rw [hpos]
       exact lexEmitNonTag_sim hops (some .eof) ms.c.pos hc hl hsim hpc hK hn (by omega)
-        (fun _ => by omega) rfl rfl hl.fd (Or.inl ⟨rfl, rfl⟩) ⟨rfl, rfl⟩ (Or.inl ⟨rfl, rfl⟩) true
+        (fun _ => by omega) rfl rfl hl.fd (Or.inl ⟨rfl, rfl⟩) ⟨rfl, rfl⟩ (Or.inl ⟨rfl, rfl⟩)
     | scanner sw => rw [hrs, hrw] at hr; exact hr.elim
   | scanner ss =>
     cases hrw : mw.r with
@@ -375,7 +376,7 @@ theorem lexEmitTagLexeme_sim (hops : OpsSim env.ops inpS inpW δ K) {ab ab' : Ab
     generalize (env.ops.handleTag inpS ⟨xs.prevConsumed, ⟨ls.lexemeStart, es⟩, t⟩ xs.sink).2 = r
     intro hpan
     match r, hpan with
-    | .error (.panic _), _ => exact trivial
+    | .error (.panic _), _ => exact ⟨rfl, trivial⟩
   · right
     rw [hres]
     generalize (env.ops.handleTag inpS ⟨xs.prevConsumed, ⟨ls.lexemeStart, es⟩, t⟩ xs.sink).2 = r
@@ -447,7 +448,7 @@ theorem lexEmitTag_sim (F : Frame inpS inpW δ) (hops : OpsSim env.ops inpS inpW
                     (lexStampTag c2.1 c2.2 (shTag δ t)).2 (({ cw with lastTextType := .data } : Common).pos + 1)) := by
           intro as aw happ
           match as, aw, happ with
-          | .error (.panic _), _, _ => exact Or.inl trivial
+          | .error (.panic _), _, _ => exact Or.inl ⟨rfl, trivial⟩
           | .error (.ambiguity _), .error _, h => cases h; exact Or.inr ⟨rfl, fun hh => by rcases hh with hh | hh <;> cases hh⟩
           | .error .handler, .error _, h => cases h; exact Or.inr ⟨rfl, fun hh => by rcases hh with hh | hh <;> cases hh⟩
           | .error .mem, .error _, h => cases h; exact Or.inr ⟨rfl, fun hh => by rcases hh with hh | hh <;> cases hh⟩
